@@ -79,9 +79,10 @@ func (p *Auth) Unpack(buf []byte) error {
 	}
 
 	p.Reason = buf[0]
-	methodLen := buf[1]
+	// NOTE: int arithmetic - uint8(2+methodLen) would wrap around for methodLen >= 254.
+	methodLen := int(buf[1])
 
-	if len(buf) < int(2+methodLen) {
+	if len(buf) < 2+methodLen {
 		return fmt.Errorf("bad AUTH packet length: expected >=%d, got %d", 2+methodLen, len(buf))
 	}
 
